@@ -57,50 +57,48 @@ Definition build_attrs (l : list attr) : list (string * string) * list (string *
                 | ABoolDyn n k => (ss, (n, get_bool st k) :: bs)
                 end) ([], []) l.
 
-(* [hyd] = IS_HYDRATING (false inside NoHydrate), [sus] = suspense key, [cnt] = next element key *)
-Fixpoint build (hyd : bool) (sus : nat) (item : option Z) (v : view) (cnt : nat) {struct v} : list ssr * nat :=
-  let fix build_list (vs : list view) (cnt : nat) : list ssr * nat :=
-    match vs with
-    | [] => ([], cnt)
-    | x :: r => let '(a, c1) := build hyd sus item x cnt in let '(b, c2) := build_list r c1 in ((a ++ b)%list, c2)
-    end in
-  match v with
-  | VEl tag attrs children =>
-      let hk := if hyd then Some (sus, cnt) else None in
-      let cnt1 := if hyd then S cnt else cnt in
-      let '(ss, bs) := build_attrs attrs in
-      let '(ch, cnt2) := build_list children cnt1 in
-      ([SEl tag ss bs hk ch], cnt2)
-  | VText s => ([STextStatic s], cnt)
-  | VDynText k => ([STextDyn (opt_str (get_str st k))], cnt)
-  | VDyn k a b =>
-      let '(ch, cnt1) := build_list (if get_bool st k then a else b) cnt in
-      ([SMarker; SDynamic ch; SMarker], cnt1)
-  | VFrag vs => build_list vs cnt
-  | VShow k vs =>
-      (* the children are evaluated up front, then shown or dropped *)
-      let '(ch, cnt1) := build_list vs cnt in
-      ([SMarker; SDynamic (if get_bool st k then ch else []); SMarker], cnt1)
-  | VList _ k tmpl =>
-      (* SSR: a static view, one instance of the template per item *)
-      fold_left (fun '(acc, c) it =>
-                   let fix inst (vs : list view) (c : nat) : list ssr * nat :=
-                     match vs with
-                     | [] => ([], c)
-                     | x :: r => let '(a, c1) := build hyd sus (Some it) x c in let '(b, c2) := inst r c1 in ((a ++ b)%list, c2)
-                     end in
-                   let '(n, c') := inst tmpl c in ((acc ++ n)%list, c'))
-                (get_list st k) ([], cnt)
-  | VItem => ([STextStatic (match item with Some z => show_Z z | None => "" end)], cnt)
-  | VComp vs => build_list vs cnt
-  | VNoHydrate vs =>
-      (fix nh (vs : list view) (cnt : nat) : list ssr * nat :=
-         match vs with
-         | [] => ([], cnt)
-         | x :: r => let '(a, c1) := build false sus item x cnt in let '(b, c2) := nh r c1 in ((a ++ b)%list, c2)
-         end) vs cnt
-  | VNoSsr _ =>
-      ([SEl "no-ssr" [] [] (if hyd then Some (sus, cnt) else None) []], if hyd then S cnt else cnt)
+(* a list of views built left to right with one counter *)
+Fixpoint build_list_with (b : view -> nat -> list ssr * nat) (vs : list view) (cnt : nat) : list ssr * nat :=
+  match vs with
+  | [] => ([], cnt)
+  | x :: r => let '(a, c1) := b x cnt in let '(bs, c2) := build_list_with b r c1 in ((a ++ bs)%list, c2)
+  end.
+
+(* [hyd] = IS_HYDRATING (false inside NoHydrate), [sus] = suspense key, [cnt] = next element key;
+   [f] bounds the nesting depth of the view (any f greater than the depth gives the same result) *)
+Fixpoint build (f : nat) (hyd : bool) (sus : nat) (item : option Z) (v : view) (cnt : nat) {struct f} : list ssr * nat :=
+  match f with
+  | O => ([], cnt)
+  | S f' =>
+      let bl := build_list_with (build f' hyd sus item) in
+      match v with
+      | VEl tag attrs children =>
+          let hk := if hyd then Some (sus, cnt) else None in
+          let cnt1 := if hyd then S cnt else cnt in
+          let '(ss, bs) := build_attrs attrs in
+          let '(ch, cnt2) := bl children cnt1 in
+          ([SEl tag ss bs hk ch], cnt2)
+      | VText s => ([STextStatic s], cnt)
+      | VDynText k => ([STextDyn (opt_str (get_str st k))], cnt)
+      | VDyn k a b =>
+          let '(ch, cnt1) := bl (if get_bool st k then a else b) cnt in
+          ([SMarker; SDynamic ch; SMarker], cnt1)
+      | VFrag vs => bl vs cnt
+      | VShow k vs =>
+          (* the children are evaluated up front, then shown or dropped *)
+          let '(ch, cnt1) := bl vs cnt in
+          ([SMarker; SDynamic (if get_bool st k then ch else []); SMarker], cnt1)
+      | VList _ k tmpl =>
+          (* SSR: a static view, one instance of the template per item *)
+          fold_left (fun '(acc, c) it =>
+                       let '(n, c') := build_list_with (build f' hyd sus (Some it)) tmpl c in ((acc ++ n)%list, c'))
+                    (get_list st k) ([], cnt)
+      | VItem => ([STextStatic (match item with Some z => show_Z z | None => "" end)], cnt)
+      | VComp vs => bl vs cnt
+      | VNoHydrate vs => build_list_with (build f' false sus item) vs cnt
+      | VNoSsr _ =>
+          ([SEl "no-ssr" [] [] (if hyd then Some (sus, cnt) else None) []], if hyd then S cnt else cnt)
+      end
   end.
 End Build.
 
@@ -130,8 +128,9 @@ Fixpoint render (n : ssr) : string :=
 Definition render_view (vs : list ssr) : string := concat "" (map render vs).
 
 (* render_to_string: a fresh registry (suspense key 0, element key 0) *)
+Definition build_fuel : nat := 64.
 Definition render_to_string (st : vstate) (v : view) : string :=
-  render_view (fst (build st true 0 None v 0)).
+  render_view (fst (build st build_fuel true 0 None v 0)).
 
 (* the tokens a tree stands for: what "the view that was built" means for the parse-back property *)
 Fixpoint tokens (n : ssr) : list token :=
